@@ -1,7 +1,7 @@
 (* Extraction of the executable models to OCaml.  ExtrOcamlBasic only; no Extract Constant /
    Extract Inductive of our own: nat, N, Z, positive, ascii stay the extracted inductives. *)
 Require Import ExtrOcamlBasic.
-Require Import Bytes Base64Model Rfc4648 NumParse Restartable TablesGen ParserModel ParserInst RouterModel QueueModel PromiseConc PromiseConcLemmas PromiseModel NetModel MimeModel CookieModel HeaderModel TransportModel WireModel LifecycleModel.
+Require Import Bytes Base64Model Rfc4648 NumParse Restartable TablesGen ParserModel ParserInst RouterModel QueueModel PromiseConc PromiseConcLemmas PromiseModel NetModel MimeModel CookieModel HeaderModel TransportModel WireModel LifecycleModel ClientModel.
 Extraction "model.ml"
   Bytes.n2b Bytes.b2n
   Base64Model.encode Base64Model.decode Base64Model.set_basic Base64Model.get_basic
@@ -21,4 +21,5 @@ Extraction "model.ml"
   HeaderModel.cl_parse HeaderModel.cl_write HeaderModel.cc_write HeaderModel.cc_parse_top HeaderModel.host_parse HeaderModel.host_write HeaderModel.hdr_lookup
   TransportModel.events TransportModel.issue
   WireModel.put_on_wire WireModel.render_stream WireModel.write_request WireModel.dechunk
-  LifecycleModel.lrun.
+  LifecycleModel.lrun
+  ClientModel.kstep ClientModel.kinit ClientModel.final.
